@@ -770,6 +770,43 @@ def i_shared(ctx):
     c14.f(ctx)
 
 
+@R.clause("C02.p", "the predicate that files a request under (token, None) is true exactly for multicast groups: a unicast destination is never matched by token alone (shared with C10.i)")
+def p_shared(ctx):
+    """C02.a decides on small worlds that request() files a request under (token, remote) and under (token, None)
+    exactly when `remote.is_multicast` is true -- with is_multicast as a free boolean of the world.  What that boolean
+    IS for a given destination is a dependency of the matching rule: an entry under (token, None) is found by
+    process_response for a response from ANY source address, which is right only when the destination was a group
+    (responses come from the members' unicast addresses).  An independently written breaking change made
+    UDP6EndpointAddress.is_multicast true for IPv4 addresses ending in .255 (ordinary hosts in a /16 or /23): a forged
+    response with a sniffed token from any address was delivered as the request's result, a forged CON was ACKed
+    instead of Reset, the genuine response discarded -- tokenmanager.py untouched.  Conversely a group for which the
+    predicate is false is filed under the group address and no response ever matches it.  The necessary condition is
+    the value table `is_multicast(address) <=> address is a multicast group (RFC 4291 ff00::/8, RFC 5771 224.0.0.0/4,
+    v4-mapped spelling included)`, which C10.i decides by running the property (and is_multicast_locally, which
+    decides whether an unmatched CON response is answered with the Reset this property demands) in the address
+    evaluator of _kit_c10 against a reference written from the RFCs -- by value, so helpers, temporaries and
+    spellings of the parse cannot trip it.  The obligations are those of C10.i."""
+    from . import c10
+    c10.i_multicast_locally(ctx)
+
+
+@R.clause("C02.q", "shutdown: every outstanding request is failed with LibraryShutdown and the 'shut down' marker request() tests is set before shutdown's first suspension point (shared with C18.b)")
+def q_shared(ctx):
+    """'Every request completes ... with an error derived from the library's error base class ... context shutdown
+    at any point': request() refuses a request with LibraryShutdown when `outgoing_requests is None` (C18.c), and
+    shutdown() fails the registered ones and sets that marker.  This is an atomicity obligation: on every path through
+    TokenManager.shutdown no suspension point (await) lies before the drain of the table and the store of the marker,
+    because during a suspension other tasks run -- Context.request()'s carrier task reaches request(), finds the
+    marker unset, registers the request and hands the message to a transport that is being (or has been) closed; the
+    request then ends with whatever the dead transport raises (AttributeError), not a library error.  An independently
+    written breaking change moved `await self.token_interface.shutdown()` to the top of shutdown() with the drain and
+    the marker textually unchanged below it.  Decided on shutdown()'s CFG by dominance (drain and marker stores
+    dominate the lower layer's await, and no other await precedes it), which is indifferent to how the drain is
+    spelled; the obligations are those of C18.b."""
+    from . import c18
+    c18.b(ctx)
+
+
 @R.clause("C02.h", "endpoint identity: __eq__ and __hash__ use the same projection of the socket address, keeping address and port")
 def h(ctx):
     eq = ctx.prog.func("transports.udp6.UDP6EndpointAddress.__eq__")
@@ -1802,3 +1839,20 @@ R.seed("C02.o", F_PROTO, _SPAWN_OLD, "        task = self.loop.create_task(send(
        "the carrying task is cancelled by a timer: CancelledError passes `except Exception`, the pipe is never failed")
 R.seed("C02.d", F_TM, "        # TODO: add proper Token handling\n", "        if not self.outgoing_requests:\n            return b\"\"\n",
        "empty token while nothing is outstanding: sequential requests reuse it, a late response to a retired request matches the next one")
+
+# C02.p / C02.q: the dependencies of the matching rule and of 'completes with a library error at shutdown' (shared
+# clauses; tokenmanager.request / process_response stay untouched in every one of these)
+_ISMC_OLD = "        return ipaddress.ip_address(self._plainaddress().split(\"%\", 1)[0]).is_multicast"
+R.seed("C02.p", F_UDP6, _ISMC_OLD, "        a = ipaddress.ip_address(self._plainaddress().split(\"%\", 1)[0])\n        return a.is_multicast or a.version == 4",
+       "every IPv4 destination counts as a group: its requests are filed under (token, None) and answered by whoever knows the token")
+R.seed("C02.p", F_UDP6, _ISMC_OLD, "        return self.sockaddr[0].startswith(\"ff\")",
+       "group test on the raw text of the socket address: v4-mapped IPv4 groups are filed under the group address, no member's response matches")
+_SHUT_OLD = "            request.add_exception(error.LibraryShutdown())\n        self.outgoing_requests = None\n"
+R.seed("C02.q", F_TM, "    async def shutdown(self):\n        while self.incoming_requests:", "    async def shutdown(self):\n        await self.token_interface.shutdown()\n        while self.incoming_requests:",
+       "lower layers shut down first: a request arriving during the await passes the `is None` guard and is sent into a closed transport")
+R.seed("C02.q", F_TM, _SHUT_OLD, "            request.add_exception(error.LibraryShutdown())\n            await self.loop.create_future()\n        self.outgoing_requests = None\n",
+       "the drain suspends between two requests while the marker is still unset")
+R.seed("C02.q", F_TM, _SHUT_OLD, "            request.add_exception(error.LibraryShutdown())\n        self.outgoing_requests = {}\n",
+       "the table is emptied but never marked: requests after shutdown are registered and never complete")
+R.seed("C02.q", F_TM, _SHUT_OLD, "            request.add_exception(RuntimeError(\"shutdown\"))\n        self.outgoing_requests = None\n",
+       "outstanding requests end with an exception outside the library's error hierarchy")
